@@ -402,7 +402,7 @@ def run_shard(shard, tier, rec):
     probes = probes_for(w)
     rec.count("probes_per_state", 0)
     orig = c32.TXN_KINDS
-    for h, ms in c32.enumerate_histories(w, root, shard["depth"], True):
+    for h, ms in c32.enumerate_histories(w, root, shard["depth"], True, False):
         exp = ms.expect_flush(af=True)
         if any(tag for tag, _ in exp["outcomes"]) or exp.get("known_err") or exp.get("known_any") or (exp["error"] and not exp["must_error"]):
             # the flush of this state runs into a catalogued load-order dependent defect (f1 f3 f6 f7 f9; C30 / C39) or has
